@@ -16,6 +16,7 @@ import itertools
 
 INT_TYPES = ["std::size_t", "unsigned", "int", "long"]
 REAL_TYPES = ["float", "double"]
+LARGE_EXT = {1: [2100], 2: [47, 45], 3: [13, 14, 12], 4: [7, 8, 6, 7]}  # IO-only variant 4
 EXT = [3, 4, 2, 3, 2]          # extents per axis used by every generated storage layer
 
 
@@ -220,7 +221,8 @@ class Stack:
 
     def special_configs(self, var):
         """IO-only configuration alphabets (no lookups are performed on such fields): signed zeros, infinities, NaN,
-        denormals and type extremes in every configuration blob (var 1), degenerate 1-cell extents (var 2)."""
+        denormals and type extremes in every configuration blob (var 1), degenerate 1-cell extents (var 2), an empty
+        field (var 3), a payload of several KiB (var 4)."""
         inf, nan = float("inf"), float("nan")
         for idx, L in enumerate(self.layers):
             k, kd = L.k, L.kind
@@ -254,6 +256,13 @@ class Stack:
                     above = self.layers[idx - 1] if idx > 0 else None
                     if above is not None and above.kind in Layer.STORAGE:
                         L.cfg["size"] = 0
+            elif var == 4:
+                # a payload of more than two 4 KiB blocks in either float width, with unequal extents
+                if kd in Layer.STORAGE:
+                    L.cfg["sizes"] = LARGE_EXT.get(k.n, [5] * k.n)
+                elif kd in ("array", "probe_array"):
+                    above = self.layers[idx - 1] if idx > 0 else None
+                    L.cfg["size"] = storage_len(above) if above is not None and above.kind in Layer.STORAGE else 2100
             elif var == 2:
                 if kd in Layer.STORAGE:
                     L.cfg["sizes"] = [1 for _ in range(k.n)]
